@@ -186,7 +186,21 @@ def analyse_method(run, pkg, K, m, attrs, ex):
            "centre index i runs over range(N-1) (with j > i: every unordered pair once)", f"iterates {show(pit)[:80]}",
            witness=None if ok_p else f"i in {show(pit)[:60]}", loc=fi.loc(Lp.node))
 
-    type_of = make_type_of(snap, ivar)
+    # species must be read from the frame whose pairs are being counted
+    foreign = set()
+    for ev_ in stores(it):
+        if ev_.loops and ev_.data["target"][1] == df:
+            for x in walk(ev_.data["value"]):
+                if x[0] == "sub" and x[1] != ("attr", snap, "particle_type"):
+                    bx = ex(x[1])
+                    if bx[0] == "attr" and bx[2] == "particle_type" and bx[1] != snap:
+                        foreign.add(x[1])
+    if K > 1:
+        run.ob("R-SEL", fq, "type-source", not foreign, "species ids in the selectors are read from the frame being processed",
+               ", ".join(show(ex(x))[:60] for x in foreign) if foreign else show(("attr", snap, "particle_type"))[:50],
+               witness=None if not foreign else "two frames in which particles exchange species at fixed composition: frame 1's pairs are sorted into the columns of frame 0's species",
+               loc=fi.loc())
+    type_of = make_type_of(snap, ivar, also=tuple(foreign))
     want_bins = ex(attrs["maxbin"])
     want_range = ("tuple", (C(0), ("bin", "*", want_bins, ("sym", "rdelta"))))
 
